@@ -20,7 +20,7 @@ CLAIMED.update({
     "C13": ("C13_*: Sol/SolW/reported invariant under constraint permutation, the sort of Problem.init, duplication, dummy, variable permutation, shared-domain renaming, unsharing, translation; metamorphic runs of the real solver on rewritten models and shipped examples; Problem.init arrays vs initProblem", "§7 C13"),
     "C16": ("PARTIAL: C16_safe_<alg> (19 algorithms), C16_port_alldifferent / C16_port_gcc / C16_port_full_proved (every array access of the raw ported Hall-interval algorithms is in bounds in contract), C16_branch_index, C16_stack; sign- and bounds-checked arrays under the interpreted engine on every propagator and on whole searches; integer widths of the arrays are tested (wide-magnitude cases), not modelled", "§7 C16"),
     "C19": ("PARTIAL: C19_stack_bound, C19_overflow_reported, C19_push_at_most_two, C19_pointer_fits_uint8 on the model of solve_one; heights {2..8,127,128,255,256,257,300,512} x depths around the limit (two- and three-way splits, both parities) in interpreted and compiled mode; 16-bit index widths tested, not modelled", "§7 C19"),
-    "C20": ("PARTIAL: C20_<model>: Sol ↔ Valid for all 15 shipped models (all parameters); symmetry breaking preserves satisfiability/optimum proved for Golomb (C20_golomb_sb_preserves, every n) and magic squares (C20_magicSquare_sb_preserves, every n >= 2); the Golomb model's own consistency algorithm modelled and proved sound (C20_golomb_prune_sound); known counts for small instances by kernel evaluation (C20_count_*: queens 4..8, Latin squares 2..3, magic sequences 4..7, Schur 3..4, Golomb-4 optimum) and C20_solver_count; constructor arrays of all 15 models compared with the Lean models; solutions validated by independent validators; larger counts vs OEIS/literature and symmetry-breaking preservation tested; optima vs brute force", "§7 C20"),
+    "C20": ("PARTIAL: C20_<model>: Sol ↔ Valid for all 15 shipped models (all parameters); symmetry breaking preserves satisfiability/optimum proved for Golomb (mirror), magic squares (dihedral images), Schur (colour renaming) and BIBD (double-lex theorem) for all parameters (C20_*_sb_preserves); the Golomb model's own consistency algorithm modelled as a third ConsAlg, its pruning proved sound (C20_golomb_prune_sound) and the example run with it partially correct (C20_golomb_own_enumeration/_optimum); known counts for small instances by kernel evaluation (C20_count_*: queens 4..8, Latin squares 2..3, magic sequences 4..7, Schur 3..4, Golomb-4 optimum) and C20_solver_count; constructor arrays of all 15 models compared with the Lean models; solutions validated by independent validators; larger counts vs OEIS/literature and symmetry-breaking preservation tested; optima vs brute force", "§7 C20"),
     "C02": ("C02_enumeration(_bc/_guarded): solveAll from the root returns L.map reported with L duplicate-free and exactly the solutions, with explicit fuel/height bounds; C02_strategy_independent: any two configurations and posting orders yield permutations of the same list; whole-run correspondence + brute force on the real solver", "§7 C02"),
     "C03": ("C03_optimum(_bc/_guarded): optimize returns none iff infeasible, else a solution of optimal value, and terminates; correspondence of minimize/maximize incl. unwatched and shared-offset objectives; brute-force optimum", "§7 C03"),
     "C10": ("C10_stack_unchanged, C10_le_bc, C10_keeps_solutions, C10_consOk_shaving (+ search corollaries): shaving leaves the stack as found, returns sub-domains of bound consistency's, never loses a solution; whole runs with shaving compared with the model and with plain BC", "§7 C10"),
